@@ -36,6 +36,8 @@ type World struct {
 	Alias    []string
 	// independent reference values disagreeing with the code under test
 	RefClash []string
+	// when set, `new` opens its AccountDB over this shared database instead of a private one
+	sharedTdb account.AccountDatabase
 }
 
 type keptSlice struct {
@@ -179,9 +181,15 @@ func (w *World) Exec(line string) string {
 		if tok != account.VerifTokenContract() || rip != common.StringToAddress("0000000000000000000000000000000000000003") {
 			return "bad-op" // the line must describe this process's configuration
 		}
-		setP002(f[3] == "1")
-		m, _ := db.NewMemDatabase()
-		w.tdb = account.NewDatabase(m)
+		if w.sharedTdb == nil { // concurrent worlds (mode=conc) all run with the flag already on
+			setP002(f[3] == "1")
+		}
+		if w.sharedTdb != nil {
+			w.tdb = w.sharedTdb
+		} else {
+			m, _ := db.NewMemDatabase()
+			w.tdb = account.NewDatabase(m)
+		}
 		adb, err := account.NewAccountDB(common.Hash{}, w.tdb)
 		if err != nil {
 			return "ERR"
